@@ -9,6 +9,7 @@ import Mathlib.Tactic.SplitIfs
 import Mathlib.Algebra.Order.Field.Rat
 import LpModel.C10
 import LpProofs.C10.Lemmas
+import LpProofs.C10.SortDedup
 namespace Lp.C10
 
 /-! ## 1. Vector -/
@@ -510,11 +511,84 @@ theorem interp2Ctor_guard_iff (xs ys : List Rat) (f : List (List Rat)) (xd yd fd
 example : interp2CtorMeaningful [0, 1, 2] [0, 1, 2] [[1, 1, 1], [1, 1, 1], [1, 1, 1]] := by
   refine ⟨rfl, by simp, ⟨by decide, by simp [List.pairwise_cons]⟩, ⟨by decide, by simp [List.pairwise_cons]⟩⟩
 
-/-- FULL statement for the table constructor of `Interpolation_2D` (not proved: it needs the
-    specification of `std::sort`/`std::unique` = `mergeSort`/`eraseDups` on the abscissa columns;
-    the clause is decided by correspondence on complete / incomplete / permuted / ragged tables) -/
-def interp2Table_guard_iff_FULL : Prop :=
-  ∀ (t : List (List Rat)) (xd yd fd : Rat), interp2TableGuard t xd yd fd = stop ↔ ¬ interp2TableMeaningful t
+/-- FULL statement for the table constructor of `Interpolation_2D`, PROVED.  The constructor sorts and
+    de-duplicates the x and y columns (`std::sort` + `std::unique` = `sortDedup`, which by
+    `sortDedup_spec` is THE strictly increasing list of the distinct values), checks
+    `x.size()*y.size() == data_table.size()`, then checks row `k` against `(x[k / ny], y[k % ny])` in order,
+    then runs the grid constructor (two 1-D constructors: at least 3 points each).  The guard passes iff
+    every row has 3 entries and the table is exactly the row-major listing of a complete grid over
+    strictly increasing abscissa lists of at least 3 values each. -/
+theorem interp2Table_guard_iff_FULL (t : List (List Rat)) (xd yd fd : Rat) :
+    interp2TableGuard t xd yd fd = stop ↔ ¬ interp2TableMeaningful t := by
+  unfold interp2TableGuard
+  by_cases hall : (t.all (fun r => decide (r.length = 3))) = true
+  · have hall' : ∀ r ∈ t, r.length = 3 := by simpa using hall
+    simp only [hall, Bool.not_true, Bool.false_eq_true, if_false]
+    by_cases hlen : (sortDedup (t.map (fun r => r.getD 0 0))).length * (sortDedup (t.map (fun r => r.getD 1 0))).length
+        ≠ t.length
+    · rw [if_pos hlen]
+      simp only [true_iff]
+      rintro ⟨_, xs, ys, hx, hy, ht⟩
+      obtain ⟨ex, ey⟩ := sortDedup_of_grid hx hy ht
+      apply hlen
+      have hl := congrArg List.length ht
+      rw [List.length_map] at hl
+      rw [ex, ey, ← gridOf_length]
+      exact hl.symm
+    · rw [if_neg hlen]
+      have hlen' := not_not.mp hlen
+      have hg : (gridOf (sortDedup (t.map (fun r => r.getD 0 0))) (sortDedup (t.map (fun r => r.getD 1 0)))).length
+          = t.length := by rw [gridOf_length]; exact hlen'
+      have hz := zip_all_iff _ t hg
+      by_cases hzip : (List.zip (gridOf (sortDedup (t.map (fun r => r.getD 0 0))) (sortDedup (t.map (fun r => r.getD 1 0)))) t).all
+          (fun p => decide (p.1.1 = p.2.getD 0 0) && decide (p.1.2 = p.2.getD 1 0)) = true
+      · rw [if_pos hzip, interp2Ctor_guard_iff]
+        apply not_congr
+        constructor
+        · rintro ⟨_, _, hx, hy⟩
+          exact ⟨hall', _, _, hx, hy, hz.mp hzip⟩
+        · rintro ⟨_, xs, ys, hx, hy, ht⟩
+          obtain ⟨ex, ey⟩ := sortDedup_of_grid hx hy ht
+          rw [ex, ey]
+          exact ⟨by simp, by simp, hx, hy⟩
+      · rw [if_neg hzip]
+        simp only [true_iff]
+        rintro ⟨_, xs, ys, hx, hy, ht⟩
+        obtain ⟨ex, ey⟩ := sortDedup_of_grid hx hy ht
+        apply hzip
+        rw [hz, ex, ey]; exact ht
+  · have hall' : ¬ ∀ r ∈ t, r.length = 3 := by simpa using hall
+    have : (!(t.all (fun r => decide (r.length = 3)))) = true := by simpa using hall
+    rw [if_pos this]
+    simp only [true_iff]
+    exact fun h => hall' h.1
+
+/-- the modelling assumption made explicit: the theorem uses of `std::sort` + `std::unique` only the SPEC
+    "strictly increasing, same elements" — which determines the result uniquely — and `sortDedup` meets it -/
+theorem interp2Table_sort_unique_spec (l : List Rat) :
+    (sortDedup l).Pairwise (· < ·) ∧ (∀ a, a ∈ sortDedup l ↔ a ∈ l)
+    ∧ ∀ xs : List Rat, xs.Pairwise (· < ·) → (∀ a, a ∈ xs ↔ a ∈ l) → xs = sortDedup l := sortDedup_spec l
+
+/-- a complete 3 × 3 grid table is meaningful … -/
+example : interp2TableMeaningful
+    [[0, 0, 5], [0, 1, 5], [0, 2, 5], [1, 0, 5], [1, 1, 5], [1, 2, 5], [2, 0, 5], [2, 1, 5], [2, 2, 5]] := by
+  refine ⟨by simp, [0, 1, 2], [0, 1, 2], ⟨by decide, by simp [List.pairwise_cons]⟩,
+    ⟨by decide, by simp [List.pairwise_cons]⟩, by simp⟩
+
+/-- … and the same rows with two of them exchanged are not (all rows have 3 entries, the columns have the
+    right distinct values and the count is right — only the ORDER check rejects it) -/
+example : interp2TableGuard
+    [[0, 1, 5], [0, 0, 5], [0, 2, 5], [1, 0, 5], [1, 1, 5], [1, 2, 5], [2, 0, 5], [2, 1, 5], [2, 2, 5]] (-1) (-1) (-1)
+      = stop := by
+  rw [interp2Table_guard_iff_FULL]
+  rintro ⟨_, xs, ys, hx, hy, ht⟩
+  obtain ⟨ex, ey⟩ := sortDedup_of_grid hx hy ht
+  have e0 : xs = [0, 1, 2] := by
+    rw [← ex]; exact sortDedup_eq_of_spec (by simp [List.pairwise_cons]) (by intro a; simp)
+  have e1 : ys = [0, 1, 2] := by
+    rw [← ey]; exact sortDedup_eq_of_spec (by simp [List.pairwise_cons]) (by intro a; simp; tauto)
+  subst e0; subst e1
+  simp at ht
 
 /-- proved part: a table with a row that does not have three entries is rejected -/
 theorem interp2Table_guard_partial (t : List (List Rat)) (xd yd fd : Rat) (h : ∃ r ∈ t, r.length ≠ 3) :
